@@ -135,54 +135,20 @@ Print Assumptions c18_after_is_ord_before.
 
 (* 10. TrieGaps.  [is_gap K T x]: x lies below T, no key of K is comparable with x, and x is T
    itself or its parent is comparable with some key (x is a maximal uncovered prefix below T).
-   (a) with the empty target (RefreshSchedule) the result is exactly the set of gaps;
-   (b) for every target it is exactly the set of gaps below the EFFECTIVE target [eff t target],
-       the node where the descent along the target stops, which is the target or one of its
-       ancestors (c), hence exact whenever it is the target (d);
-   (e) it is NOT the set of gaps below the target in general (finding F13): for {110,111} and
-       target 00 the answer is ["0"]; for {101,111} and target 101 (covered) it is ["100"]. *)
-Theorem c18_gaps_exact_root :
-  forall (D : Type) (t : trie D) (order : bits), wf t -> height t <= length order ->
-    exists g, trie_gaps t [] order = Ok g /\ forall x, In x g <-> is_gap (keys_of t) [] x.
-Proof. exact @gaps_exact_root. Qed.
-Print Assumptions c18_gaps_exact_root.
-
-Theorem c18_gaps_effective_target :
+   For every target the result is exactly the set of gaps below the target, sorted by the order.
+   (Before the repair of finding F13 this held for the empty target only.) *)
+Theorem c18_gaps_exact :
   forall (D : Type) (t : trie D) (target order : bits), wf t -> height t <= length order ->
-    exists g, trie_gaps t target order = Ok g /\
-              forall x, In x g <-> is_gap (keys_of t) (eff t target) x.
-Proof. exact @gaps_effective. Qed.
-Print Assumptions c18_gaps_effective_target.
-
-Theorem c18_gaps_effective_target_is_ancestor :
-  forall (D : Type) (t : trie D) (target : bits), is_prefix (eff t target) target = true.
-Proof. exact @eff_prefix_of_target. Qed.
-Print Assumptions c18_gaps_effective_target_is_ancestor.
-
-Theorem c18_gaps_exact_when_effective :
-  forall (D : Type) (t : trie D) (target order : bits),
-    wf t -> height t <= length order -> eff t target = target ->
     exists g, trie_gaps t target order = Ok g /\ forall x, In x g <-> is_gap (keys_of t) target x.
-Proof. exact @gaps_exact_when_effective. Qed.
-Print Assumptions c18_gaps_exact_when_effective.
+Proof. exact @gaps_exact. Qed.
+Print Assumptions c18_gaps_exact.
 
-(* (f) for every target the gaps are returned sorted by the order (keys no longer than the order). *)
 Theorem c18_gaps_sorted :
   forall (D : Type) (t : trie D) (target order : bits) (g : list bits),
     wf t -> height t <= length order -> (forall k, In k (keys_of t) -> length k <= length order) ->
     trie_gaps t target order = Ok g -> StronglySorted (ord_before order) g.
 Proof. exact @gaps_sorted. Qed.
 Print Assumptions c18_gaps_sorted.
-
-Theorem c18_gaps_within_target_refuted :
-  (wf f13_t1 /\ trie_gaps f13_t1 [false; false] [false; false; false] = Ok [[false]] /\
-   ~ is_gap (keys_of f13_t1) [false; false] [false] /\
-   is_gap (keys_of f13_t1) [false; false] [false; false]) /\
-  (wf f13_t2 /\ trie_gaps f13_t2 [true; false; true] [false; false; false] = Ok [[true; false; false]] /\
-   ~ is_gap (keys_of f13_t2) [true; false; true] [true; false; false] /\
-   forall x, ~ is_gap (keys_of f13_t2) [true; false; true] x).
-Proof. exact gaps_within_target_refuted. Qed.
-Print Assumptions c18_gaps_within_target_refuted.
 
 (* 11. RegionsFromPeers.  [regions_ok sz order covered t R]: the regions partition the peers
    (a permutation: every peer in exactly one region), each region is the non-empty well-formed
